@@ -8,7 +8,10 @@ filtered.
 
 from hypothesis import strategies as st
 
-STEPS = [600, 900, 1200, 1800, 2400, 3600, 7200, 86400]  # incl. daily data
+# incl. daily data, and loggers whose step is not a whole number of minutes
+# or not a divisor of the hour (step/3600*3600 is then not the step again in
+# double arithmetic: 115, 229)
+STEPS = [600, 900, 1200, 1800, 2400, 3600, 7200, 86400, 90, 115, 229, 300]
 ZONES = ['UTC', 'UTC', 'Etc/GMT-7', 'Etc/GMT+5', 'Africa/Lagos',
          'Asia/Kolkata', 'Etc/GMT-12']
 T0_BASE = 1388534400  # 2014-01-01 00:00:00 UTC, a multiple of 7200
@@ -94,8 +97,20 @@ def assemble(dt, t0, tz, rain, z_units, z_first, lead_rain, trail_rain,
 def header(draw):
     dt = draw(st.sampled_from(STEPS))
     tz = draw(st.sampled_from(ZONES))
-    t0 = T0_BASE + draw(st.integers(-2000, 200000)) * dt
+    t0 = draw_t0(draw, dt)
     return dt, tz, t0
+
+
+def draw_t0(draw, dt, span=40):
+    """Epoch of rain index 0.  When the case's process time zone
+    (vfw.ambient) changes its clocks, half of the records are laid across
+    one of its transitions."""
+    from vfw import ambient
+    trans = ambient.TRANSITIONS.get(ambient.CURRENT.get('tz'))
+    if trans and draw(st.booleans()):
+        return draw(st.sampled_from(trans)) - draw(
+            st.integers(-2, span)) * dt
+    return T0_BASE + draw(st.integers(-2000, 200000)) * dt
 
 
 @st.composite
